@@ -341,24 +341,49 @@ def Operand.value (env : List (String × Arr Val)) (shape : Shape) (i : Idx) : O
      | none => .undef)
   | .scalar c => litVal c
 
+/-- the full index into the reduced array: entry `d` is the value fixed for a
+    reduced dim `d`, otherwise the next entry of the output index -/
+def buildIdx (fixed : List (Nat × Nat)) : Nat → Nat → Idx → Idx
+  | _, 0, _ => []
+  | d, fuel + 1, rest =>
+    match fixed.find? (·.1 == d) with
+    | some (_, v) => v :: buildIdx fixed (d + 1) fuel rest
+    | none => rest.headD 0 :: buildIdx fixed (d + 1) fuel rest.tail
+
 /-- reduce `x` over the listed axes, one axis after the other (outermost first);
-    `fixed` = the index entries decided so far as (dim, value) -/
+    `fixed` = the reduced dims decided so far as (dim, value) -/
 def reduceOver (op : RedOp) (x : Arr Val) (out : Idx) :
     List (Nat × String) → List (Nat × Nat) → Val
   | [], fixed =>
-    -- all reduced axes fixed: read x at the full index (non-reduced dims from `out`, in order)
-    let nd := x.shape.length
-    let rec build (d : Nat) (fuel : Nat) (rest : Idx) : Idx :=
-      match fuel with
-      | 0 => []
-      | fuel + 1 =>
-        match fixed.find? (·.1 == d) with
-        | some (_, v) => v :: build (d + 1) fuel rest
-        | none => rest.headD 0 :: build (d + 1) fuel rest.tail
-    let j := build 0 nd out
+    let j := buildIdx fixed 0 x.shape.length out
     if inB x.shape j then x.get j else .undef
   | (d, _) :: more, fixed =>
     op.fold ((List.range (x.shape.getD d 0)).map fun k => reduceOver op x out more ((d, k) :: fixed))
+
+/-- positions of the variables (other than `_k`) in a subscript, from dim `d` on -/
+def varPositions : List SExpr → Nat → List (Nat × String)
+  | [], _ => []
+  | .var v :: rest, d => (d, v) :: varPositions rest (d + 1)
+  | _ :: rest, d => varPositions rest (d + 1)
+
+/-- what `_is_normal_reduce_expr` does NOT check, and what makes a recognised
+    reduction a faithful `ReduceOp`: the reduction variables are pairwise
+    distinct, each occurs exactly once in the subscript, and the subscript
+    indexes every axis of the operand -/
+def reduceSideOK (e : SExpr) (bs : List (String × Shape)) : Bool :=
+  match e with
+  | .reduce op v lo hi body =>
+    let r := peelReduce op (.reduce op v lo hi body)
+    (match r.2 with
+     | .sub a ix =>
+       (match lookupShape bs a with
+        | some s =>
+          decide (r.1.map (·.1)).Nodup &&
+          r.1.all (fun b => ((varPositions ix 0).filter (·.2 == b.1)).length == 1) &&
+          ix.length == s.length
+        | none => false)
+     | _ => false)
+  | _ => false
 
 /-- the array a high-level operation denotes, given the index lambda's shape -/
 def hloDenote (h : HLO) (shape : Shape) (env : List (String × Arr Val)) : Arr Val :=
